@@ -193,8 +193,10 @@ def timeline_run(rep, prop, tier, progs, want, shrink=True):
                 r = e2e.replay_of(txt, cfg, o)
                 r.update({"model_op": ln, "impl_timeline": exp, "model_timeline": got})
                 rep.violation(f"[{cfg}] {what}: impl `{exp[:160]}` model `{(got or '')[:160]}`", r, tags={"sweep:" + cfg})
+    from . import corpus
+    corpus_stats = corpus.run(rep, prop, tier)
     rep.cov.update({"evaluations": len(texts) * len(e2e.cfgs(tier)), "distinct_nontrivial": len(nontrivial),
-                    "configurations": e2e.cfgs(tier), "samples": texts[:2],
+                    "configurations": e2e.cfgs(tier), "samples": texts[:2], "corpus": corpus_stats,
                     "sweep_model_comparisons": sweep_cases, "timeline_segments_compared": sweep_segments,
                     "outcomes": {f"{c}/{k}/{v}": n_ for (c, k, v), n_ in sorted(stats.items())}})
     return stats
